@@ -108,6 +108,19 @@ CHECKS = {
         technique="Coq proof (induction on fuel with nested script induction) + differential "
                   "correspondence evaluated by vm_compute",
         design_ref="DESIGN.md section 6/C11"),
+    'C15': dict(
+        text="Theorems (Props/C15.v): every reference style resolves to the right object (object, "
+             "name, '_ctrl', '_not_NAME' shortcut = a Not whose only input is NAME, Const, plain "
+             "constant), the circuit grows by exactly one block of an unused name per shortcut and "
+             "block names stay unique through the whole finalisation (one shared inverter), the "
+             "connection biconditional B in ocon(A) <-> A in icon(B) <-> A feeds B, unknown/foreign/"
+             "wrong-kind references are errors, names of event destinations and filter control blocks "
+             "resolve to the block of that name and kind. The biconditional, conf=inputs, resolved "
+             "names and frozenness are ALSO evaluated by the monitor on the data observed on the real "
+             "circuit after an explicit finalize() and after a normal start.",
+        technique="Coq proof (list induction, NoDup preservation) + differential correspondence and "
+                  "monitor evaluated by vm_compute",
+        design_ref="DESIGN.md section 6/C15"),
 }
 
 NOT_YET = "check not built yet in this round (planned: Coq model + theorems + correspondence, see DESIGN.md section 6)"
